@@ -21,6 +21,13 @@ type Rule struct {
 	SetsTag bool        `json:"tag,omitempty"`
 	Returns bool        `json:"ret,omitempty"`
 	RetVal  interface{} `json:"retval,omitempty"`
+	// FailKind selects the failing statement of a failing rule (0: panicking function,
+	// others: see props.failStmts). TagCond, if set, guards the rule's store to the stop
+	// tag: it evaluates to true in a rule that sets the tag and to false in one that does
+	// not ("=" prefix: the condition is assigned to the tag instead). Neither changes what
+	// the reference model expects.
+	FailKind int    `json:"fk,omitempty"`
+	TagCond  string `json:"tagcond,omitempty"`
 }
 
 // Input of a validation.
